@@ -1,7 +1,7 @@
 // fam_tth: correspondence harness for TTHeader encode/decode (C06, C10, C03).
 //
 //	tth enc <wk> <flags> <seq> <proto> <intkvs> <strkvs> <plen>  => err | ok <frame hex> <decode result>
-//	tth dec <hex>                                                => <decode result>
+//	tth dec <hex>                                                => <decode result>   (ttheader.DecodeFromBytes)
 //	tth decs <hex> <src>                                         => <decode result>   src = b<cap> | script
 //	decode result = ok <flags> <seq> <proto> <hl> <pl> <int> <str> <readlen> | err <e> <readlen> | PANIC <class>
 package main
@@ -153,6 +153,31 @@ func runDecBytes(b []byte, c int) string {
 	})
 }
 
+// runDecFromBytes: the exported entry point ttheader.DecodeFromBytes on a slice of exactly these bytes;
+// ReadLen is not observable through it, so it is taken from the explicit NewBytesReader+Decode path on a
+// copy, and the two paths must report the same result (otherwise the line says DIVERGE and matches nothing).
+func runDecFromBytes(b []byte) string {
+	explicit := runDecBytes(b, len(b))
+	return lib.Guard(func() string {
+		bs := make([]byte, len(b))
+		copy(bs, b)
+		p, err := ttheader.DecodeFromBytes(ctx, bs)
+		if !bytes.Equal(bs, b) {
+			return "DIVERGE input-modified"
+		}
+		f := strings.Fields(explicit)
+		rl := 0
+		if len(f) > 0 {
+			rl, _ = strconv.Atoi(f[len(f)-1])
+		}
+		res := decRes(p, err, rl)
+		if res != explicit {
+			return "DIVERGE " + res + " | " + explicit
+		}
+		return res
+	})
+}
+
 func runDecScript(b []byte, sc string) string {
 	return lib.Guard(func() string {
 		s := lib.NewSource(b, lib.ParseScript(sc))
@@ -214,7 +239,7 @@ func runEnc(wk string, param ttheader.EncodeParam, plen int) string {
 			frame = sink.Bytes()
 		}
 		all := append(append(make([]byte, 0, len(frame)+plen), frame...), payload(plen)...)
-		return "ok " + lib.Hex(frame) + " " + runDecBytes(all, len(all))
+		return "ok " + lib.Hex(frame) + " " + runDecFromBytes(all)
 	})
 }
 
@@ -478,7 +503,7 @@ func emitDec(r *lib.Rng, class string, b []byte, streams int) {
 	}
 	em.Count("dec-class:" + class)
 	em.Count("dec-len:" + sizeClass(len(b)))
-	res := runDecBytes(b, len(b))
+	res := runDecFromBytes(b)
 	em.Count("dec:" + firstTwo(res))
 	hx := lib.Hex(b)
 	em.Line(res, "tth", "dec", hx)
@@ -1089,7 +1114,7 @@ func replay(lines [][]string) {
 			em.Line(runWriteUint32(uint32(v)), f...)
 		case f[1] == "dec" && len(f) == 3:
 			b := lib.UnHex(f[2])
-			em.Line(runDecBytes(b, len(b)), f...)
+			em.Line(runDecFromBytes(b), f...)
 		case f[1] == "decs" && len(f) == 4:
 			em.Line(runDecSrc(lib.UnHex(f[2]), f[3]), f...)
 		}
